@@ -202,6 +202,30 @@ class LayerRuleMatcher(RuleMatcher):
         super().__init__(module_requirement, behavior_requirement)
         self._layer_mapping = layer_mapping
 
+    def _updated_module_requirements(self, evaluable: EvaluableArchitecture) -> None:
+        super()._updated_module_requirements(evaluable)
+
+        # layers that are not mentioned in the rule can be defined via regexes as well. These are not part of the
+        # module requirement, but their modules are needed to map every module to its layer.
+        regex_filters_of_all_layers = [
+            module_filter
+            for layer in self._layer_mapping.all_layers
+            for module_filter in self._layer_mapping.get_module_filters(layer)
+            if module_filter.identifier_is_regex
+        ]
+        _, self._conversion_mapping_layers = ModuleNameConverter.convert(
+            regex_filters_of_all_layers, evaluable
+        )
+
+    def _create_module_name_regex_conversion_mapping(self) -> dict[str, list[Module]]:
+        result = super()._create_module_name_regex_conversion_mapping()
+
+        for key, values in self._conversion_mapping_layers.items():
+            if key not in result:
+                result[key] = values
+
+        return result
+
     def _get_rule_violation_detector(
         self, module_name_conversion_mapping: dict[str, list[Module]]
     ) -> RuleViolationBaseDetector:
